@@ -133,3 +133,13 @@ claim('C06',
       'recorded heuristic gaps; what is symbolic is the coordinate flag of every bond and the numbering.',
       'symbolic execution with solver-forked bond flags and solver-enumerated permutations (minisym), graph-theoretic oracle',
       'DESIGN.md §4 C06')
+claim('C17',
+      'Linear fragments on small skeletons with every atom identifier a solver variable (realised by the code, exhaustion '
+      'certified) equal my own simple-path enumeration keyed by the larger reading direction, with multiplicities and the cap; '
+      'the folding arithmetic of linear_bit_set / morgan_bit_set is decided for every signed 64-bit hash as a bit-vector: each '
+      'index < length, one per active bit, equal to the documented bit groups; Morgan identifiers equal my own iterated '
+      'neighbourhood hashing; every hash set / fingerprint is equal for every random-order spelling of the seeds.',
+      'Bounded: skeletons <= 5-6 atoms with 2-3 identifier values, length 2^1..2^12 (quick), seeds; CPython hash collisions '
+      'outside; `set` in the fingerprint modules is replaced by a recorder in the folding harness.',
+      'symbolic execution of the real fingerprint code (minisym): bit-vector validity queries for the folding, '
+      'solver-enumerated labels for the fragments', 'DESIGN.md §4 C17')
